@@ -179,7 +179,12 @@ def binaryLine : List String → String
     | none => "bad-op"
     | some s =>
       match (if fmt = "cbor" then decode s else if fmt = "msgpack" then Spec.Msgpack.decode s
-             else if fmt = "bson" then Spec.Bson.decode s else Spec.Ubjson.decode s) with
+             else if fmt = "bson" then Spec.Bson.decode s
+             else (match s with
+                   | [] => .illformed
+                   -- `Spec.Ubjson.decode` with extra fuel: a counted container of zero-byte elements (`[$Z#U\xff`) needs one step per element,
+                   -- which the definition's 3·|s|+3 does not cover (more fuel never changes an answer that is not out-of-fuel)
+                   | m :: r => Spec.Ubjson.valueOf (3 * s.length + 3 + 1048576) m r)) with
       | .ok v _ => "ok " ++ " ".intercalate (bvTokens v)
       | .illformed => "ill"
       | .unjudged => "unjudged"
